@@ -14,6 +14,7 @@ import numpy as np
 from .. import fakes
 from .. import gen as G
 from ..common import HarnessError, Invalid, UnexecutableGraph, Violation, chunks_eq, fp, same_value
+from ..preempt import PreemptSim
 from ..schedsim import POLICIES, Sim
 
 ID = "C25"
@@ -67,6 +68,13 @@ def gen(rng, tier):
     scheds = [{"policy": "fifo", "sseed": 0, "release": False}]
     for _ in range(2 if tier == "quick" else 5):
         scheds.append({"policy": rng.choice(POLICIES), "sseed": rng.getrandbits(32), "release": rng.random() < 0.5})
+    # line-granular interleaving of 2-3 in-flight store tasks contending for the lock (baton-passed
+    # threads).  Real locks (lock=True here or on a source) would really block, so those stay atomic.
+    true_lock = lock is True or any(s_["op"] == "from_array" and s_["args"].get("lock") is True for s_ in recipe["steps"])
+    if mode == "store" and not true_lock and (isinstance(lock, str) or rng.random() < 0.3):
+        for _ in range(1 if tier == "quick" else 3):
+            scheds.append({"policy": "preempt", "inflight": rng.choice([2, 3]), "yield_p": rng.choice([0.1, 0.3, 0.6]),
+                           "sseed": rng.getrandbits(32), "release": False})
     return {"recipe": recipe, "pairs": pairs, "lock": lock, "mode": mode, "axis": rng.randrange(8), "tkind": tkind,
             "compute": rng.random() < 0.7, "return_stored": rng.random() < 0.3, "schedules": scheds,
             "fault_positions": "all" if tier == "thorough" else 3, "fseed": rng.getrandbits(32)}
@@ -86,6 +94,10 @@ def _region_tuple(region):
 
 
 def _sim(sched, stats):
+    if sched["policy"] == "preempt":
+        stats["fault.preempt_runs"] = stats.get("fault.preempt_runs", 0) + 1
+        return PreemptSim(random.Random(sched["sseed"]), inflight=sched.get("inflight", 2), yield_p=sched.get("yield_p", 0.3),
+                          prop=ID, stats=stats, locks=list(fakes._LOCKS.values()))
     return Sim(random.Random(sched["sseed"]), policy=sched["policy"], release=sched["release"], prop=ID, stats=stats)
 
 
@@ -220,8 +232,10 @@ def execute(case, stats, log):
     frng = random.Random(case["fseed"])
     if case["fault_positions"] != "all" and len(positions) > case["fault_positions"]:
         positions = frng.sample(positions, case["fault_positions"])
-    sched = case["schedules"][0]
-    for (ti, k) in positions:
+    pre = [s_ for s_ in case["schedules"] if s_["policy"] == "preempt"]
+    for pi_, (ti, k) in enumerate(positions):
+        # every other fault lands while other writes are in flight (error under lock contention)
+        sched = pre[0] if (pre and pi_ % 2 == 1) else case["schedules"][0]
         ts = make_targets()
         try:
             do_store(ts, sched, fail=(ti, k))
